@@ -24,12 +24,14 @@ JoinSlash(ds) == IF ds = <<>> THEN "" ELSE ds[1] \o "/" \o JoinSlash(Tail(ds))
 Ent(dirs, stem, ext, suffix) == [dirs |-> dirs, stem |-> stem, ext |-> ext, suffix |-> suffix]
 Entries == {Ent(<<>>, "a", "X", ""), Ent(<<"sub">>, "a", "X", ""), Ent(<<"sub", "deep">>, "c", "X", ""),
             Ent(<<>>, "b", "X", ".bak"), Ent(<<"xX">>, "c", ".txt", ""), Ent(<<>>, "e", "X", "x"), Ent(<<>>, "README", ".md", ""),
-            Ent(<<"xX">>, "d", "X", ""), Ent(<<>>, "f.g", "X", "")}
+            Ent(<<"xX">>, "d", "X", ""), Ent(<<>>, "f.g", "X", ""),
+            Ent(<<>>, "gX", "X", "")}                     \* "g" + extension + extension: the NAME ends in the extension
 Sub(s, ext) == IF s = "X" THEN ext ELSE IF s = "xX" THEN "x" \o ext ELSE s
-RelPath(e, ext) == JoinSlash([i \in 1..Len(e.dirs) |-> Sub(e.dirs[i], ext)]) \o e.stem \o Sub(e.ext, ext) \o e.suffix
+Stem(e, ext) == IF e.stem = "gX" THEN "g" \o ext ELSE e.stem
+RelPath(e, ext) == JoinSlash([i \in 1..Len(e.dirs) |-> Sub(e.dirs[i], ext)]) \o Stem(e, ext) \o Sub(e.ext, ext) \o e.suffix
 \* C18: exactly the files whose names END in the extension, under their relative path without the extension
 IsTemplate(e) == e.ext = "X" /\ e.suffix = ""
-NameOf(e, ext) == JoinSlash([i \in 1..Len(e.dirs) |-> Sub(e.dirs[i], ext)]) \o e.stem
+NameOf(e, ext) == JoinSlash([i \in 1..Len(e.dirs) |-> Sub(e.dirs[i], ext)]) \o Stem(e, ext)
 Spellings == {[cfg |-> "d", real |-> "d"], [cfg |-> "d/", real |-> "d"], [cfg |-> "./d", real |-> "d"],
               [cfg |-> "d/../d", real |-> "d"], [cfg |-> "p/d", real |-> "p/d"], [cfg |-> "d/sub", real |-> "d/sub"], [cfg |-> "/d/", real |-> "d"],
               \* dots that belong to the name: a hidden directory, a trailing dot, a dotted last segment
